@@ -55,3 +55,68 @@ def _f20(hist, mm):
                 if any(isinstance(v, (int, float)) and v < 0 for v in vals):
                     return True
     return False
+
+
+def _rec_mk(hist):
+    for st in hist:
+        if st.get('op') == 'mk' and st.get('kind') == 'rec':
+            return st
+    return None
+
+
+def _primary_sentinel_value(mk):
+    """the sentinel of the primary field as a Python number (None = default of the type)"""
+    return mk.get('sentinel')
+
+
+def _is_sent(mk, v):
+    import numpy as np
+    from harness.hsops import DT
+    import healsparse
+    pt = dict(mk['fields'])[mk['primary']]
+    s = healsparse.utils.check_sentinel(DT[pt], mk.get('sentinel') if mk.get('sentinel') is None or pt[0] != 'f'
+                                        else float(mk['sentinel']))
+    return DT[pt](v) == s
+
+
+@signature('F32')
+def _f32(hist, mm):
+    """a whole-record write whose primary is the sentinel while other fields carry data: the pixel is
+    invalid in the parent but field views show (and accept writes to) its other fields"""
+    mk = _rec_mk(hist)
+    if mk is None or not all(m['layer'] == 'L0' for m in mm):
+        return False
+    names = [n for n, _ in mk['fields']]
+    pi = names.index(mk['primary'])
+    hit = False
+    for st in hist:
+        if st.get('op') == 'upd' and st.get('values') is not None:
+            vals = st['values'] if isinstance(st['values'][0], list) else [st['values']]
+            for v in vals:
+                if _is_sent(mk, v[pi]):
+                    hit = True
+    views = [st for st in hist if (st.get('op') == 'single' and not st.get('copy', True)) or st.get('op') in ('vwrite', 'vwrite_valid')]
+    return hit and bool(views)
+
+
+@signature('F22')
+def _f22(hist, mm):
+    """the sentinel written through a view of the primary field: the parent's cached count goes stale"""
+    mk = _rec_mk(hist)
+    if mk is None or not all(m['layer'] == 'L0' for m in mm):
+        return False
+    if not any('n_valid' in m['what'] or 'stale' in m['what'] or 'get_valid_area' in m['what'] for m in mm):
+        return False
+    for st in hist:
+        if st.get('op') == 'vwrite' and st.get('field') == mk['primary']:
+            if any(_is_sent(mk, v) for v in st['values']):
+                return True
+    return False
+
+
+@signature('F21')
+def _f21(hist, mm):
+    """degrade with the bitwise 'and' reduction over a coarse pixel with valid and invalid children"""
+    if not all(m['layer'] == 'L0' for m in mm):
+        return False
+    return any(st.get('op') == 'degrade' and st.get('reduction') == 'and' for st in hist)
